@@ -584,6 +584,41 @@ def g14(ctx):
                    '%s accepts %s as blanks; IEEE 1800-2017 5.3 white space is space, tab, newline, formfeed: a byte that cannot start any '
                    'token would be swallowed as trivia instead of making the source be rejected' %
                    (ws_role, (['%r' % c for c in extra] + unknown)))
+        # lower bound, per context: in either branch of the trivia function (inside / outside a directive) each of blank, tab, line feed
+        # and carriage return must be consumable ON ITS OWN.  (`line_ending` takes "\n" and "\r\n" but not a lone "\r": a source with CR
+        # line ends, or "\r\r\n" left by a doubled conversion, would then be rejected although only its trivia differs.)
+        wf = g.fns[ws_role]
+        branches = [('', wf.ir)]
+        if wf.tail and wf.tail[0] == 'ifelse':
+            branches = [('then-branch of `%s`' % sx.render(wf.tail[1])[:30], wf.tail[2]), ('else-branch of `%s`' % sx.render(wf.tail[1])[:30], wf.tail[3])]
+        for bname, bir in branches:
+            if not isinstance(bir, dict):
+                continue
+            alone = set()
+            unk = False
+            for node, look in grammar.iter_ir_ctx(bir):
+                if look or node['op'] != 'prim' or not node['consuming']:
+                    continue
+                if node['name'] == 'line_ending':
+                    alone.add('\n')
+                    continue
+                if node['name'] == 'tag':
+                    a_ = node['args'][0] if node['args'] else None
+                    if a_ is not None and sx.lit_str(a_) is not None and len(sx.lit_str(a_)) == 1:
+                        alone.add(sx.lit_str(a_))
+                    continue
+                cs, desc = charset(node)
+                if cs is None or node['name'] in ('is_not', 'none_of'):
+                    unk = True
+                else:
+                    alone |= cs
+            miss = sorted(set(' \t\n\r') - alone)
+            r.inst('trivia-lower-bound:%s' % (bname or 'body'), {'context': bname, 'consumable_alone': sorted(alone)})
+            if miss and not unk:
+                r.fail('%s:%s:trivia-alphabet-incomplete:%s' % (g.crate, ws_role, '+'.join('%02x' % ord(c) for c in miss)),
+                       '%s/%s:%d' % (g.crate, wf.file, wf.line),
+                       '%s (%s) cannot consume %s on its own: white space that only differs in its line-end convention (CR, or CR CR LF after a doubled conversion) '
+                       'or blank kind then changes whether the source is accepted' % (ws_role, bname or 'body', ['%r' % c for c in miss]))
     r.floor('raw_lexers', n, 45)
     return r
 
